@@ -28,6 +28,10 @@
  */
 
 #include <tins/tcp_ip/data_tracker.h>
+#ifdef TINS_VERIF_HOOKS
+#include <sstream>
+#include <tins/pdu.h>
+#endif // TINS_VERIF_HOOKS
 
 #ifdef TINS_HAVE_TCPIP
 
@@ -43,12 +47,69 @@ DataTracker::DataTracker()
 
 }
 
+#ifdef TINS_VERIF_HOOKS
+// Verification hook (guard TINS_VERIF_HOOKS): one trace line per call, written when the call returns.
+//   init: the delivery point was (re)set          adv: advance_sequence skipped ahead
+//   seg:  process_payload(seq, bytes) -> delivery point, bytes appended to payload(), buffered chunks, reported total
+struct VerifDataTrackerCall {
+    static void emit_point(const char* what, const DataTracker& t) {
+        if (Internals::verif_trace_hook) {
+            std::ostringstream os;
+            os << "{\"e\":\"dt_" << what << "\",\"id\":\"" << static_cast<const void*>(&t) 
+               << "\",\"k\":" << t.seq_number_ << "}";
+            Internals::verif_trace_hook(os.str().c_str());
+        }
+    }
+
+    VerifDataTrackerCall(const DataTracker& t, uint32_t seq, const DataTracker::payload_type& payload)
+    : tracker(t), seq(seq), input(payload), payload_size_before(t.payload_.size()) { }
+
+    ~VerifDataTrackerCall() {
+        if (!Internals::verif_trace_hook) {
+            return;
+        }
+        std::ostringstream os;
+        os << "{\"e\":\"dt_seg\",\"id\":\"" << static_cast<const void*>(&tracker) << "\",\"seq\":" << seq << ",\"b\":[";
+        for (size_t i = 0; i < input.size(); ++i) {
+            os << (i ? "," : "") << static_cast<int>(input[i]);
+        }
+        os << "],\"k\":" << tracker.seq_number_ << ",\"deliv\":[";
+        for (size_t i = payload_size_before; i < tracker.payload_.size(); ++i) {
+            os << (i > payload_size_before ? "," : "") << static_cast<int>(tracker.payload_[i]);
+        }
+        os << "],\"total\":" << tracker.total_buffered_bytes_ << ",\"buf\":[";
+        bool first = true;
+        for (DataTracker::buffered_payload_type::const_iterator it = tracker.buffered_payload_.begin();
+             it != tracker.buffered_payload_.end(); ++it) {
+            os << (first ? "" : ",") << "{\"seq\":" << it->first << ",\"b\":[";
+            for (size_t i = 0; i < it->second.size(); ++i) {
+                os << (i ? "," : "") << static_cast<int>(it->second[i]);
+            }
+            os << "]}";
+            first = false;
+        }
+        os << "]}";
+        Internals::verif_trace_hook(os.str().c_str());
+    }
+
+    const DataTracker& tracker;
+    uint32_t seq;
+    DataTracker::payload_type input;
+    size_t payload_size_before;
+};
+#endif // TINS_VERIF_HOOKS
+
 DataTracker::DataTracker(uint32_t seq_number)
 : seq_number_(seq_number), total_buffered_bytes_(0) {
-
+    #ifdef TINS_VERIF_HOOKS
+    VerifDataTrackerCall::emit_point("init", *this);
+    #endif // TINS_VERIF_HOOKS
 }
 
 bool DataTracker::process_payload(uint32_t seq, payload_type payload) {
+    #ifdef TINS_VERIF_HOOKS
+    VerifDataTrackerCall verif_call(*this, seq, payload);
+    #endif // TINS_VERIF_HOOKS
     const uint32_t chunk_end = seq + payload.size();
     // If the end of the chunk ends before current sequence number, ignore it.
     if (seq_compare(chunk_end, seq_number_) < 0) {
@@ -121,6 +182,9 @@ void DataTracker::advance_sequence(uint32_t seq) {
     }
 
     seq_number_ = seq;
+    #ifdef TINS_VERIF_HOOKS
+    VerifDataTrackerCall::emit_point("adv", *this);
+    #endif // TINS_VERIF_HOOKS
 }
 
 uint32_t DataTracker::sequence_number() const {
@@ -129,6 +193,9 @@ uint32_t DataTracker::sequence_number() const {
 
 void DataTracker::sequence_number(uint32_t seq) {
     seq_number_ = seq;
+    #ifdef TINS_VERIF_HOOKS
+    VerifDataTrackerCall::emit_point("init", *this);
+    #endif // TINS_VERIF_HOOKS
 }
 
 const DataTracker::payload_type& DataTracker::payload() const {
